@@ -49,13 +49,16 @@ type Order struct {
 
 // RunSpec is everything one scan needs.
 type RunSpec struct {
-	Mode    string        `json:"mode"` // "sim": SimFS with a virtual root; "real": sandboxed directory, DirectFS
-	OS      string        `json:"os"`   // linux | windows | mac  (Capabilities.OS)
-	Running bool          `json:"running,omitempty"`
-	Files   []FileSpec    `json:"files"`
-	Dirs    []string      `json:"dirs,omitempty"` // extra (empty) directories
-	Order   Order         `json:"order"`
-	Disk    scan.DiskPlan `json:"disk"`
+	Mode    string     `json:"mode"` // "sim": SimFS with a virtual root; "real": sandboxed directory, DirectFS
+	OS      string     `json:"os"`   // linux | windows | mac  (Capabilities.OS)
+	Running bool       `json:"running,omitempty"`
+	Files   []FileSpec `json:"files"`
+	Dirs    []string   `json:"dirs,omitempty"` // extra (empty) directories
+	// Root2: files of a SECOND scan root (sim mode): one Scan with two roots, the extractor instances
+	// shared between them as scalibr does.
+	Root2 []FileSpec    `json:"root2,omitempty"`
+	Order Order         `json:"order"`
+	Disk  scan.DiskPlan `json:"disk"`
 	// ListKey != 0: every directory lists its entries in the order of a keyed hash of their names
 	// (0 = sorted by name).  The listing order is the simulated disk's decision, part of the scenario.
 	ListKey uint64 `json:"list_key,omitempty"`
@@ -442,6 +445,16 @@ func runScan(spec *RunSpec, corrupt bool, sb *sandbox, after func(ext, p string)
 		plan := spec.Disk
 		sfs = scan.NewSimFS(root, rec, &plan, "")
 		cfg.ScanRoots = []*scalibrfs.ScanRoot{{FS: lockedFS{sfs, &h.fsMu, h, spec.NoSeek}, Path: ""}}
+		if len(spec.Root2) > 0 {
+			spec2 := *spec
+			spec2.Files, spec2.Dirs, spec2.Root2 = spec.Root2, nil, nil
+			root2, _, err := buildTree(&spec2, corrupt)
+			if err != nil {
+				return nil, err
+			}
+			sfs2 := scan.NewSimFS(root2, rec, &scan.DiskPlan{Chunk: plan.Chunk, EOFWithData: plan.EOFWithData}, "root2")
+			cfg.ScanRoots = append(cfg.ScanRoots, &scalibrfs.ScanRoot{FS: lockedFS{sfs2, &h.fsMu, h, spec.NoSeek}, Path: ""})
+		}
 	}
 	ctx, cancel := context.WithCancel(context.Background())
 	defer cancel()
